@@ -6,6 +6,14 @@ sys.path.insert(0, os.path.dirname(os.path.abspath(__file__)))
 import _runchecks
 VERIF = os.path.dirname(os.path.dirname(os.path.abspath(__file__)))
 NEEDS = {
+ 'C01-overlay-entry-keeps-old-tag': 'two commits on the same key queued at once, the pipeline stopped between them (first processed, second still queued), and a read in that window',
+ 'C03-kill-logs-drops-read-queue': 'a drop that leaves at least four log files to apply (flushed files + non-empty appending file + queued commits)',
+ 'C12-sync-before-buffer-drain': 'power loss between the enactment of a record and the next cleaning of the logs, with partial write-back of the table pages (the tail of the log record was written after the fdatasync)',
+ 'C02-empty-index-file-ignored': 'index growth pending in the log and a crash exactly between create and set_len of the new index file (during enactment or recovery)',
+ 'C08-validate-and-copy-with-rollback': 'a commit refused by validate (Reference on a plain column) spanning two columns, whose valid part overwrote the overlay entry of a still queued commit; a read before the queue drains',
+ 'C16-header-error-retires-log': 'an I/O fault exactly on the first read of a record header in the enact stage while the thread doing shutdown/cleanup is fault-free',
+ 'C11-deferral-reports-no-more-work': 'background threads, a dereference commit examined while its tree is locked, an otherwise empty queue and no later commits',
+ 'C17-shutdown-keeps-enacted-logs': 'sync_data=false passed to reset_column/add_column/drop_last_column, the column closed with a pending reindex, background workers running during the precheck open',
  'C04-overlay-entry-parked-across-commits': 'mixed state (tree keys around the cursor, an unprocessed overlay entry ahead), a further commit touching the gap or the parked key while the iterator is open, no seek/direction change in between (patch rebased onto the F17 fix)',
  'C15-commit-throttle-loop-ignores-bg-error': 'background threads, a committer parked on the full commit queue (> 16 MiB), then an I/O error in the log worker with more than 16 MiB still queued (patch rebased onto the F16 fix; original kept as patch.orig-776afcf.diff)',
  'C07-reset-skipped-on-size-mismatch': 'a ref-counted column with lz4/snappy, a value above the compression threshold that really compresses, and a repeated Set of the present key',
@@ -73,6 +81,14 @@ NEEDS = {
  'C07-skip-set-if-present': 'three queued commits Set(k) / Dereference(k) to zero / Set(k); read after the first two were processed',
 }
 ORIGIN = {
+ 'C01-overlay-entry-keeps-old-tag': 'fired through existing rules (set-always-published) somewhat by accident of the entry API; the principled rule was added afterwards (commit-overlay entries are only inserted whole, tag and value together: C01 3w / C05 3ow)',
+ 'C03-kill-logs-drops-read-queue': 'rules existed before the seed (read_queue consumer confinement; kill_logs unlinks only pool files and the reader)',
+ 'C12-sync-before-buffer-drain': 'rule existed before the seed (BufWriter drained before the fdatasync, C12 1e / C03 6e)',
+ 'C02-empty-index-file-ignored': 'rule added after this seed exposed the gap (open_existing answers "no such table" only on the NotFound outcome of opening the file)',
+ 'C08-validate-and-copy-with-rollback': 'rule existed before the seed (K6b effect-before-error; same idea as C08-validate-interleaved-with-publish, found independently)',
+ 'C16-header-error-retires-log': 'rule existed before the seed (C16 2g; third independent rediscovery of this change)',
+ 'C11-deferral-reports-no-more-work': 'rule existed for C03/C15 (took-a-commit-means-more-work) and fired there; attached to C11 afterwards',
+ 'C17-shutdown-keeps-enacted-logs': 'fired for C03 (drain sequence); the C17 obligations were added afterwards (kill_logs always runs clean_all_logs before the log files are deleted; clean_all_logs truncates exactly num_dirty_logs)',
  'C04-overlay-entry-parked-across-commits': "rule added after this seed exposed the gap (the iterator keeps no reference-counted overlay key/value between calls; every step queries the overlay); the agent's side note led to defect F17 (seek_to_last keeps the parked tree entry), fixed in /repo 631da66 with rule C04 2m",
  'C15-commit-throttle-loop-ignores-bg-error': "rule added after this seed exposed the gap (a throttle wait that can be re-entered looks at the error slot on every trip); the seeding agent's side note led to defect F16 (commit arriving after the worker died parks forever), fixed in /repo 64b77bd with rules C15 2g/2h",
  'C07-reset-skipped-on-size-mismatch': 'rule strengthened after this seed (C07 2b only required the increment to be reachable; 2f requires it on every success path of the arm)',
